@@ -27,7 +27,7 @@ HEAPREPL = ["vm_string_new", "vm_array_new", "vm_array_push"]
 # the array-arm loop of the function under proof (name after DFCC wrapping); dead for non-array tags:
 # unwound once, the unwinding assertion proves it is never entered
 SERLOOP = "cop_serialize_value_wrapped_for_contract_checking.0"
-DECLOOP = "cop_deserialize_value_wrapped_for_contract_checking.0"
+DECLOOP = "deserialize_value_at_wrapped_for_contract_checking.0"
 SCALARS = {"void": 0x00, "int": 0x01, "float": 0x03, "bool": 0x04, "opaque": 0x0E}
 
 
@@ -45,8 +45,8 @@ def obligations(repo):
                         functions=["cop_serialize_value"], must_have=[r"cop_serialize_value\.postcondition", r"COVER"],
                         min_checks=30, witness={"replayer": "cop"}))
         obs.append(dict(id="C15.dec.%s" % nm, prop="C15", harness=HARNESS, entry="h_dec", defines=d,
-                        gi_flags=rec("cop_deserialize_value"), replace=HEAPREPL, unwind=9, unwindset=[DECLOOP + ":1"], strength="U",
-                        functions=["cop_deserialize_value"], must_have=[r"cop_deserialize_value\.postcondition", r"COVER"],
+                        gi_flags=rec("deserialize_value_at"), replace=HEAPREPL, unwind=9, unwindset=[DECLOOP + ":1"], strength="U",
+                        functions=["deserialize_value_at"], must_have=[r"deserialize_value_at\.postcondition", r"COVER"],
                         min_checks=30, witness={"replayer": "cop"}))
         obs.append(dict(id="C15.codec.%s" % nm, prop="C15", harness=HARNESS, entry="h_rt", defines=d,
                         replace=["cop_serialize_value", "cop_deserialize_value"], unwind=9, strength="U",
@@ -60,8 +60,8 @@ def obligations(repo):
                         functions=["cop_serialize_value"], must_have=[r"cop_serialize_value\.postcondition", r"COVER"],
                         min_checks=30, witness={"replayer": "cop"}, note=note))
     obs.append(dict(id="C15.dec.string", prop="C15", harness=HARNESS, entry="h_sdec", defines=ds,
-                    gi_flags=rec("cop_deserialize_value"), replace=HEAPREPL, unwind=6, unwindset=[DECLOOP + ":1"], strength="U",
-                    functions=["cop_deserialize_value"], must_have=[r"cop_deserialize_value\.postcondition", r"vm_string_new\.precondition", r"COVER"],
+                    gi_flags=rec("deserialize_value_at"), replace=HEAPREPL, unwind=6, unwindset=[DECLOOP + ":1"], strength="U",
+                    functions=["deserialize_value_at"], must_have=[r"deserialize_value_at\.postcondition", r"vm_string_new\.precondition", r"COVER"],
                     min_checks=30, witness={"replayer": "cop"}))
     obs.append(dict(id="C15.codec.string", prop="C15", harness=HARNESS, entry="h_srt", defines=ds,
                     replace=["cop_serialize_value", "cop_deserialize_value"], unwind=6, strength="U",
@@ -73,8 +73,8 @@ def obligations(repo):
                     gi_flags=rec("cop_serialize_value"), replace=HEAPREPL, unwind=6, unwindset=[SERLOOP + ":1"], strength="U",
                     functions=["cop_serialize_value"], must_have=[r"cop_serialize_value\.postcondition", r"COVER"], min_checks=30))
     obs.append(dict(id="C15.other.dec", prop="C15", harness=HARNESS, entry="h_odec", defines=do,
-                    gi_flags=rec("cop_deserialize_value"), replace=HEAPREPL, unwind=6, unwindset=[DECLOOP + ":1"], strength="U",
-                    functions=["cop_deserialize_value"], must_have=[r"cop_deserialize_value\.postcondition", r"COVER"], min_checks=30))
+                    gi_flags=rec("deserialize_value_at"), replace=HEAPREPL, unwind=6, unwindset=[DECLOOP + ":1"], strength="U",
+                    functions=["deserialize_value_at"], must_have=[r"deserialize_value_at\.postcondition", r"COVER"], min_checks=30))
     # arrays: h_art in harness/cop_h.c (-DCOP_VIEW_ARRAY) is a bounded round trip through the REAL serialiser, deserialiser and
     # heap.c (B(depth <= 2, count <= 2)).  It is NOT registered: even B(depth 1, count <= 1, 16-byte buffer) runs the SAT
     # back end out of 12 GB (calloc / realloc of a symbolic element count in vm_array_new / array_grow), and the variant
